@@ -46,6 +46,63 @@ func (a *AuthRequest) Done() bool                          { return a.S.Done }
 
 var _ models.AuthRequestInt = (*AuthRequest)(nil)
 
+// LiveRequest is what a storage hands out when it returns its own mutable record instead of a snapshot: every accessor
+// reads the record as it is at that moment. A login completion (user attached, done set - one atomic event of the storage)
+// lands when the handler makes its n-th Done()/GetUserID() call.
+type LiveRequest struct {
+	st       *Store
+	id       string
+	at       int
+	user     string
+	accesses int
+	Fired    bool
+}
+
+func (l *LiveRequest) rec() RequestSpec {
+	l.st.mu.Lock()
+	defer l.st.mu.Unlock()
+	if r, ok := l.st.requests[l.id]; ok {
+		return r.S
+	}
+	return RequestSpec{}
+}
+
+// tick counts an access to one of the two fields a completion changes; the completion lands before the at-th of them.
+func (l *LiveRequest) tick() {
+	if !l.Fired && l.accesses == l.at {
+		l.Fired = true
+		l.st.CompleteLogin(l.id, l.user)
+	}
+	l.accesses++
+}
+func (l *LiveRequest) GetID() string                       { return l.rec().ID }
+func (l *LiveRequest) GetApplicationID() string            { return l.rec().AppID }
+func (l *LiveRequest) GetRelayState() string               { return l.rec().RelayState }
+func (l *LiveRequest) GetAccessConsumerServiceURL() string { return l.rec().ACS }
+func (l *LiveRequest) GetBindingType() string              { return l.rec().Binding }
+func (l *LiveRequest) GetAuthRequestID() string            { return l.rec().AuthRequestID }
+func (l *LiveRequest) GetIssuer() string                   { return l.rec().Issuer }
+func (l *LiveRequest) GetDestination() string              { return l.rec().Destination }
+func (l *LiveRequest) GetUserID() string                   { l.tick(); return l.rec().UserID }
+func (l *LiveRequest) Done() bool                          { l.tick(); return l.rec().Done }
+
+var _ models.AuthRequestInt = (*LiveRequest)(nil)
+
+// ArmLive makes the next AuthRequestByID(id) hand out a live record whose login completion (by user) lands before the
+// at-th access to Done()/GetUserID(); LiveFired reports whether it did.
+func (s *Store) ArmLive(id string, at int, user string) {
+	s.mu.Lock()
+	s.live1 = &LiveRequest{st: s, id: id, at: at, user: user}
+	s.mu.Unlock()
+}
+func (s *Store) LiveFired() bool {
+	s.mu.Lock()
+	defer s.mu.Unlock()
+	f := s.live1 != nil && s.live1.Fired
+	return f
+}
+func (s *Store) DisarmLive() { s.mu.Lock(); s.live1 = nil; s.mu.Unlock() }
+
 var ErrInjected = errors.New("injected storage fault")
 
 // timeoutErr is what a storage layer reports when its backend did not answer in time: it says so through Timeout(), like a
@@ -84,6 +141,7 @@ type Store struct {
 	requests map[string]*AuthRequest
 	order    []string
 	nextID   int
+	live1    *LiveRequest // armed live record (see LiveRequest)
 	IDPrefix string
 
 	// live: the storage's own in-memory user records (users / byLogin stay pristine: they are the model the oracles read)
@@ -466,6 +524,9 @@ func (s *Store) AuthRequestByID(ctx context.Context, id string) (models.AuthRequ
 	if !ok {
 		c.Err = "not found"
 		return nil, fmt.Errorf("auth request not found")
+	}
+	if s.live1 != nil && s.live1.id == id {
+		return s.live1, nil
 	}
 	// hand out a snapshot: the handler must see one consistent state
 	cp := *r
